@@ -37,7 +37,7 @@ MAX_FIX = 8
 
 class LockSpec(object):
     def __init__(self, qual, lock, shared, allowed_calls=(), held_helpers=(), entry_held=False,
-                 recv='self', content_only=(), group=(), ctor_quals=()):
+                 recv='self', content_only=(), group=(), ctor_quals=(), atomic_calls=()):
         self.qual = qual
         self.lock = lock                        # attribute name of the lock on the receiver
         self.shared = set(shared)
@@ -48,6 +48,9 @@ class LockSpec(object):
         self.content_only = set(content_only)   # fields whose *reference* is fixed after construction/open
         self.group = list(group)                # all functions of the monitor (for reference stability)
         self.ctor_quals = list(ctor_quals)
+        # calls whose result is part of the shared state's invariant (e.g. the clock value stored with an entry of a
+        # time-ordered list): they must run inside the critical section that uses the value
+        self.atomic_calls = set(atomic_calls)
 
 
 class _Flow(object):
@@ -440,6 +443,13 @@ class LockDisciplineTask(AstTask):
                             None if v == Verdict.PROVED else '%s() touches the shared state and is called at line %d '
                             'with held in %s' % (callee, n.lineno, sorted(e['H'])), n.lineno)
                 continue
+            if callee in spec.atomic_calls:
+                cord['atomic:' + callee] = cord.get('atomic:' + callee, 0) + 1
+                v = _verdict(e['H'], True)
+                self.result('atomic-call:%s#%d:lock-held' % (callee, cord['atomic:' + callee]), 'lock-call', v,
+                            None if v == Verdict.PROVED else 'the value of %s() at line %d enters the shared state but is '
+                            'obtained with held in %s (another thread can interleave between the call and its use)'
+                            % (callee, n.lineno, sorted(e['H'])), n.lineno)
             if True in e['H']:
                 cord[callee] = cord.get(callee, 0) + 1
                 self.holds('call-while-held:%s#%d:declared' % (callee, cord[callee]), 'lock-call',
